@@ -5,7 +5,7 @@
 //	P01=<ops>/<dir>;P02=...;ord=i,j,..;rank=r0,r1,..;max=i;min=i;print=ok|na|FAIL;laws=ok|FAIL:<law>
 //
 //	<ops> = the seven answers of arr.ai's own operators  a<b b<a a=b a<=b a>b a>=b a!=b  (0/1),
-//	        obtained by evaluating `let a = A; let b = B; [a < b, ...]`
+//	        obtained by evaluating the compiled expression `[v0 < v1, ...]` with A, B bound to v0, v1
 //	<dir> = rel.Value.Less(a,b) Less(b,a) Equal(a,b) called directly
 //	ord   = `{A, B, ...} orderby .` as positions of the inputs (first input with the same canon)
 //	rank  = `{|v| (A), (B), ...} rank (r: .v)`: the rank given to each input
@@ -29,12 +29,38 @@ import (
 	"sort"
 	"strconv"
 	"strings"
+	"sync"
 
+	"github.com/arr-ai/arrai/pkg/arraictx"
 	"github.com/arr-ai/arrai/pkg/fu"
 	"github.com/arr-ai/arrai/rel"
+	"github.com/arr-ai/arrai/syntax"
 
 	"verif/harness/hlib"
 )
+
+// templates: arr.ai expressions over the free names v0..v3, compiled once and evaluated with the
+// already evaluated inputs bound in the scope (the parser is by far the slowest part of a run).
+var templates sync.Map
+
+func evalTemplate(src string, vals []rel.Value) (rel.Value, error) {
+	var expr rel.Expr
+	if e, ok := templates.Load(src); ok {
+		expr = e.(rel.Expr)
+	} else {
+		e, err := syntax.Compile(hlib.NewCtx(), "", src)
+		if err != nil {
+			return nil, err
+		}
+		templates.Store(src, e)
+		expr = e
+	}
+	scope := rel.Scope{}
+	for i, v := range vals {
+		scope = scope.With(varName(i), v)
+	}
+	return expr.Eval(arraictx.ContextWithIsCompiling(hlib.NewCtx(), false), scope)
+}
 
 func b2s(b bool) string {
 	if b {
@@ -43,27 +69,27 @@ func b2s(b bool) string {
 	return "0"
 }
 
+// evalAll evaluates all sources with one parse: the array literal [A, B, ...] (parsing dominates the run time).
 func evalAll(srcs []string) ([]rel.Value, string) {
+	v, err := hlib.EvalSrc("[" + strings.Join(srcs, ", ") + "]")
+	if err != nil {
+		return nil, "error"
+	}
+	a, ok := v.(rel.Array)
+	if !ok || len(a.Values()) != len(srcs) {
+		return nil, "error:shape"
+	}
 	vals := make([]rel.Value, len(srcs))
-	for i, s := range srcs {
-		v, err := hlib.EvalSrc(s)
-		if err != nil {
-			return nil, "error:" + strconv.Itoa(i)
+	for i, x := range a.Values() {
+		if x == nil {
+			return nil, "error:hole"
 		}
-		vals[i] = v
+		vals[i] = x
 	}
 	return vals, ""
 }
 
 func varName(i int) string { return "v" + strconv.Itoa(i) }
-
-func lets(srcs []string) string {
-	var sb strings.Builder
-	for i, s := range srcs {
-		fmt.Fprintf(&sb, "let %s = (%s); ", varName(i), s)
-	}
-	return sb.String()
-}
 
 func vars(n int, format string) string {
 	parts := make([]string, n)
@@ -128,7 +154,6 @@ func compare(srcs []string) *report {
 	for i, v := range vals {
 		canons[i] = hlib.Canon(v)
 	}
-	prefix := lets(srcs)
 
 	// pairwise, direct
 	lt := make([][]bool, n)
@@ -182,10 +207,9 @@ func compare(srcs []string) *report {
 	// pairwise, through arr.ai's operators
 	for i := 0; i < n; i++ {
 		for j := i + 1; j < n; j++ {
-			a, b := varName(i), varName(j)
-			src := prefix + fmt.Sprintf("[%[1]s < %[2]s, %[2]s < %[1]s, %[1]s = %[2]s, %[1]s <= %[2]s, %[1]s > %[2]s, %[1]s >= %[2]s, %[1]s != %[2]s]", a, b)
 			ops := "error"
-			if v, err := hlib.EvalSrc(src); err == nil {
+			if v, err := evalTemplate("[v0 < v1, v1 < v0, v0 = v1, v0 <= v1, v0 > v1, v0 >= v1, v0 != v1]",
+				[]rel.Value{vals[i], vals[j]}); err == nil {
 				if items, ok := arrayItems(v); ok {
 					// an array of booleans: false is the empty set, i.e. a hole-free array cannot hold it —
 					// arr.ai arrays keep `false` as an item, so all seven are present.
@@ -230,7 +254,7 @@ func compare(srcs []string) *report {
 
 	// orderby
 	ord := "error"
-	if v, err := hlib.EvalSrc(prefix + "{" + vars(n, "%s") + "} orderby ."); err == nil {
+	if v, err := evalTemplate("{"+vars(n, "%s")+"} orderby .", vals); err == nil {
 		if items, ok := arrayItems(v); ok {
 			parts := make([]string, len(items))
 			okOrder := len(items) == len(expected)
@@ -257,7 +281,7 @@ func compare(srcs []string) *report {
 
 	// rank
 	rank := "error"
-	if v, err := hlib.EvalSrc(prefix + "{|v| " + vars(n, "(%s)") + "} rank (r: .v)"); err == nil {
+	if v, err := evalTemplate("{|v| "+vars(n, "(%s)")+"} rank (r: .v)", vals); err == nil {
 		if s, ok := v.(rel.Set); ok {
 			ranks := make([]string, n)
 			for i := range ranks {
@@ -296,7 +320,7 @@ func compare(srcs []string) *report {
 	// max / min
 	for _, op := range []string{"max", "min"} {
 		res := "error"
-		if v, err := hlib.EvalSrc(prefix + "{" + vars(n, "%s") + "} " + op + " ."); err == nil {
+		if v, err := evalTemplate("{"+vars(n, "%s")+"} "+op+" .", vals); err == nil {
 			idx := indexOf(canons, hlib.Canon(v))
 			res = strconv.Itoa(idx)
 			want := expected[len(expected)-1]
@@ -314,7 +338,7 @@ func compare(srcs []string) *report {
 
 	// printed order of the members of {A, B, ...}
 	pr := "error"
-	if v, err := hlib.EvalSrc(prefix + "{" + vars(n, "%s") + "}"); err == nil {
+	if v, err := evalTemplate("{"+vars(n, "%s")+"}", vals); err == nil {
 		switch v.(type) {
 		case rel.GenericSet, rel.UnionSet:
 			parts := make([]string, len(expected))
